@@ -118,7 +118,16 @@ SPEC = {
                   "proved, for every byte string, to produce tokens whose spans tile the file in order with no empty "
                   "token except the synthetic final endline, so that the slices re-emit the file; every diagnostic "
                   "offset lies in [0,|file|]; every step consumes at least one byte; the only reachable panic is a "
-                  "debug-only assertion (known finding).",
+                  "debug-only assertion (known finding). Integer literals: accepted value = positional value of the "
+                  "maximal digit run < 2^64, larger runs are rejected (full); 'denotes the written value' holds except "
+                  "for suffix l on values >= 2^63, where the negation is proved with a witness replayed on the real "
+                  "lexer (known finding). Float literals: token bits = narrowOnce(suffix, nearest64(decimal text)) "
+                  "(full), where nearest64 is an exact Nat reference proved to return the nearest integer multiple of "
+                  "the unit in the last place of x's binade with ties to even, gradual underflow and saturation "
+                  "(nearest_correct_partial; comparison with finer-exponent representables and monotonicity not "
+                  "formalised) and to be exact on representable values. Rust's parse::<f64> / `as f32` are compared "
+                  "bit for bit with that reference and with an independent big-integer oracle on every run; literals "
+                  "are also compiled to HLSL and re-read (three more known findings in typer/formatter).",
     "rule": "requests = (flags, UTF-8 text) lexed token by token with the real TokenStream (and read_to_end, and unlex); "
             "every fixed spelling of every token kind alone, ordered pairs of operators/trivia/odd bytes glued, random "
             "token soups of 1-10 items with arbitrary trivia, both line endings and splices, and a numeric stream "
